@@ -113,7 +113,8 @@ def check_sizes(c, f):
                 if lo is None and hi is not None:
                     # a prefix: find the matching rest on the same base, same node or adjacent statement
                     base = norm(x.value)
-                    rests = [y for m in g.nodes if m.kind == 'stmt' and abs(m.lineno - n.lineno) <= 1
+                    near = {n} | set(p_ for p_, l_ in n.pred if l_ == 'next') | set(s_ for s_, l_ in n.succ if l_ == 'next')
+                    rests = [y for m in g.nodes if m.kind == 'stmt' and m in near
                              for y in ast.walk(m.ast) if isinstance(y, ast.Subscript) and isinstance(y.slice, ast.Slice)
                              and norm(y.value) == base and slice_bounds(y)[0] is not None and slice_bounds(y)[1] is None]
                     okp = len(rests) == 1 and lin(rests[0].slice.lower, f, keep=(size,)) == lin(hi, f, keep=(size,)) \
